@@ -335,6 +335,54 @@ func c12EncExec(c c12EncCase) (keys []string, detail, class string) {
 	return nil, detail, "enc/within/equal"
 }
 
+// ---- framings: DEFLATE streams whose first bytes look like something else ----
+
+// c12Framing: the document in hand-framed stored blocks. The five bits after the 3-bit header of
+// a stored block are padding a decoder must ignore, so the first byte of a valid stream can be a
+// space (0x20: non-final stored block) or a tab (0x09: final stored block), and the block length
+// that follows can be 60 = '<': a stream that "looks like" whitespace followed by a tag.
+type c12Framing struct {
+	Framing bool `json:"framing"`
+	Entry   int  `json:"entry"`
+	Shape   int  `json:"shape"` // 0 plain stored blocks, 1 first byte 0x20 + 60-byte first block, 2 first byte 0x09 + single block whose length ends in 0x3c
+}
+
+func c12StoredBlock(final bool, pad byte, b []byte) []byte {
+	h := pad &^ 7
+	if final {
+		h |= 1
+	}
+	out := []byte{h, byte(len(b)), byte(len(b) >> 8), ^byte(len(b)), ^byte(len(b) >> 8)}
+	return append(out, b...)
+}
+
+func c12FramingInputs(c c12Framing) (compressed, raw string) {
+	d := c12Doc(c.Entry, 9020) // 9020 = 35*256 + 60
+	var st []byte
+	switch c.Shape {
+	case 0:
+		st = append(c12StoredBlock(false, 0, d[:60]), c12StoredBlock(true, 0, d[60:])...)
+	case 1:
+		st = append(c12StoredBlock(false, 0x20, d[:60]), c12StoredBlock(true, 0, d[60:])...)
+	case 2:
+		st = c12StoredBlock(true, 0x08, d)
+	}
+	return base64.StdEncoding.EncodeToString(st), base64.StdEncoding.EncodeToString(d)
+}
+
+func c12FramingExec(c c12Framing) (keys []string, detail, class string) {
+	comp, raw := c12FramingInputs(c)
+	o, ro := c12Call(c.Entry, 0, comp), c12Call(c.Entry, 0, raw)
+	detail = fmt.Sprintf("case=%+v | compressed: accepted=%v err=%q panic=%q | raw: accepted=%v err=%q", c, o.Accepted, o.Err.Text, o.Panic, ro.Accepted, ro.Err.Text)
+	if o.Panic != "" {
+		return []string{"C12/" + c12Entries[c.Entry] + "/panic"}, detail, "panic"
+	}
+	if o.Accepted != ro.Accepted || o.Data != ro.Data {
+		return []string{fmt.Sprintf("C12/%s/compressed-differs-from-raw/accepted=%v-raw=%v/stored-block-framing", c12Entries[c.Entry], o.Accepted, ro.Accepted)}, detail, "framing/DIFFERS"
+	}
+	return nil, detail, "framing/same"
+}
+
 // ---- sequences: a message after a stream that failed part-way ----
 
 // c12Seq: entry point e is first given a DEFLATE stream that yields some output and then ends
@@ -397,6 +445,11 @@ func c12SeqExec(c c12Seq) (keys []string, detail, class string) {
 }
 
 func c12Replay(raw json.RawMessage) ([]string, string) {
+	var fr c12Framing
+	if json.Unmarshal(raw, &fr) == nil && fr.Framing {
+		k, d, _ := c12FramingExec(fr)
+		return k, d
+	}
 	var sq c12Seq
 	if json.Unmarshal(raw, &sq) == nil && sq.Seq {
 		k, d, _ := c12SeqExec(sq)
@@ -420,7 +473,7 @@ func c12Run(r *mc.Run) {
 	if r.Thorough() {
 		bomb = 2 << 30
 	}
-	r.Rule = "configured limit(6: unset, 1, 64, 2048, 65536, 5 MiB) x inflated size around the effective limit (L-1, L, L+1, 2L, 64L) x flate level(5: stored, 1, 6, 9, Huffman-only) x 6 entry points (the unverified decoders always at 5 MiB), documents = a genuine signed message (or the smallest well-formed document) padded with whitespace to the exact size; plus a streamed expansion bomb (256 MiB quick / 2 GiB thorough, ~1000:1) per limit x entry point x level with TotalAlloc measured around the call (sequential phase). Oracle: size > limit => error, and the same outcome (acceptance, error type and text) when everything after limit+1 bytes of the expansion is replaced by garbage (no wording is assumed); size <= limit => identical outcome, data and error to the same bytes presented uncompressed; the same for a DEFLATE-compressed plaintext inside an EncryptedAssertion (3 limits x 4 sizes x 2 levels); plus sequences per entry point x level x 4 unfinished streams: a DEFLATE stream that yields output and then ends without a final block, followed by an ordinary compressed message, whose outcome must equal the outcome of that message alone taken at process start. non-trivial = the input reached the inflater (raw parse failed); distinct = distinct case"
+	r.Rule = "configured limit(6: unset, 1, 64, 2048, 65536, 5 MiB) x inflated size around the effective limit (L-1, L, L+1, 2L, 64L) x flate level(5: stored, 1, 6, 9, Huffman-only) x 6 entry points (the unverified decoders always at 5 MiB), documents = a genuine signed message (or the smallest well-formed document) padded with whitespace to the exact size; plus a streamed expansion bomb (256 MiB quick / 2 GiB thorough, ~1000:1) per limit x entry point x level with TotalAlloc measured around the call (sequential phase). Oracle: size > limit => error, and the same outcome (acceptance, error type and text) when everything after limit+1 bytes of the expansion is replaced by garbage (no wording is assumed); size <= limit => identical outcome, data and error to the same bytes presented uncompressed; the same for a DEFLATE-compressed plaintext inside an EncryptedAssertion (3 limits x 4 sizes x 2 levels); plus hand-framed stored-block streams whose first bytes read as whitespace followed by '<' (padding bits of the block header, a 60-byte block length) against the raw presentation; plus sequences per entry point x level x 4 unfinished streams: a DEFLATE stream that yields output and then ends without a final block, followed by an ordinary compressed message, whose outcome must equal the outcome of that message alone taken at process start. non-trivial = the input reached the inflater (raw parse failed); distinct = distinct case"
 	r.Assume("runtime.MemStats.TotalAlloc deltas measured in a sequential phase with no other goroutine allocating")
 	// sequences: the references first, while the process has decoded nothing else
 	var seqs []c12Seq
@@ -433,6 +486,20 @@ func c12Run(r *mc.Run) {
 	}
 	for _, sq := range seqs {
 		c12SeqRef(sq)
+	}
+	for e := range c12Entries {
+		for shape := 0; shape < 3; shape++ {
+			fr := c12Framing{Framing: true, Entry: e, Shape: shape}
+			keys, detail, class := c12FramingExec(fr)
+			r.Eval(2)
+			r.State(1)
+			r.Transition(2)
+			r.Bucket(class)
+			r.Nontrivial(fmt.Sprintf("%+v", fr))
+			for _, k := range keys {
+				r.Violation(k, detail[:min(len(detail), 1500)], fr)
+			}
+		}
 	}
 	defer func() {
 		for i, sq := range seqs {
